@@ -3,7 +3,8 @@
    Harvey butterflies with machine-word wrap; final strict reduction), proofs: Transform.v, Inverse.v, NTTClosed.v, NTTTables.v.
    Tables: gen/Params.v regenerated from params.hpp on this run. *)
 From Coq Require Import ZArith List.
-From NTT Require Import Functors Algebra Inverse NTTInst NTTClosed NTTTables Shards Permut Tables FlatTable.
+From NTT Require Import Functors Algebra Inverse NTTInst NTTClosed NTTTables Shards Permut Tables FlatTable Fused GenEq.
+From NTT.gen Require Gen.
 From NTT.gen Require Import Params.
 Local Open Scope Z_scope.
 
@@ -80,3 +81,25 @@ Example C02_nonvacuous_structure :
   ntt_fwd_s 16 15361 4989 9 2 (3 :: 5690 :: 11377 :: 1703 :: 7390 :: 13077 :: 3403 :: 9090 :: nil)
   = 7469 :: 12413 :: 6176 :: 2160 :: 4334 :: 3724 :: 10584 :: 14608 :: nil.
 Proof. vm_compute. reflexivity. Qed.
+
+(* THE SOURCE ITSELF (gen/Gen.v, translated from the C++ on every run): the scalar Harvey butterfly of ntt_loop_body, the hand-fused
+   last two layers and the degree-2 special case of core::ntt are, word for word, the components the structured model is built from *)
+Theorem C02_source_butterfly : forall p a b wt wt',
+  (0 <= p < 2 ^ 14 -> 0 <= a < 2 ^ 16 -> 0 <= b < 2 ^ 16 -> 0 <= wt < 2 ^ 14 -> 0 <= wt' < 2 ^ 16 -> Gen.gen_bfly_u16 p a b wt' wt = Some (bfly_lazy 16 p wt wt' a b)) /\
+  (0 <= 2 * p < 2 ^ 32 -> 0 <= wt' < 2 ^ 32 -> Gen.gen_bfly_u32 p a b wt' wt = Some (bfly_lazy 32 p wt wt' a b)) /\
+  (0 <= 2 * p < 2 ^ 64 -> 0 <= wt' < 2 ^ 64 -> Gen.gen_bfly_u64 p a b wt' wt = Some (bfly_lazy 64 p wt wt' a b)).
+Proof. intros p a b wt wt'. exact (conj (GenEq.gen_bfly16 p a b wt wt') (conj (GenEq.gen_bfly32 p a b wt wt') (GenEq.gen_bfly64 p a b wt wt'))). Qed.
+Print Assumptions C02_source_butterfly.
+Theorem C02_source_fused_layers : forall p u0 u1 u2 u3 w1 w1',
+  (0 <= p < 2 ^ 14 -> 0 <= u0 < 2 ^ 16 -> 0 <= u1 < 2 ^ 16 -> 0 <= u2 < 2 ^ 16 -> 0 <= u3 < 2 ^ 16 -> 0 <= w1 < 2 ^ 14 -> 0 <= w1' < 2 ^ 16 ->
+     Gen.gen_fused_u16 p u0 u1 u2 u3 w1' w1 = Some (Fused.fused 16 p w1 w1' u0 u1 u2 u3)) /\
+  (0 <= 2 * p < 2 ^ 32 -> 0 <= w1' < 2 ^ 32 -> Gen.gen_fused_u32 p u0 u1 u2 u3 w1' w1 = Some (Fused.fused 32 p w1 w1' u0 u1 u2 u3)) /\
+  (0 <= 2 * p < 2 ^ 64 -> 0 <= w1' < 2 ^ 64 -> Gen.gen_fused_u64 p u0 u1 u2 u3 w1' w1 = Some (Fused.fused 64 p w1 w1' u0 u1 u2 u3)).
+Proof. intros p u0 u1 u2 u3 w1 w1'. exact (conj (GenEq.gen_fused16 p u0 u1 u2 u3 w1 w1') (conj (GenEq.gen_fused32 p u0 u1 u2 u3 w1 w1') (GenEq.gen_fused64 p u0 u1 u2 u3 w1 w1'))). Qed.
+Print Assumptions C02_source_fused_layers.
+Theorem C02_source_degree2 : forall p u0 u1,
+  (0 <= p < 2 ^ 14 -> 0 <= u0 < 2 ^ 16 -> 0 <= u1 < 2 ^ 16 -> Gen.gen_deg2_u16 p u0 u1 = Some (GenEq.strict1 p (Fused.ladd 16 p u0 u1), GenEq.strict1 p (Fused.lsub 16 p u0 u1))) /\
+  (0 <= 2 * p < 2 ^ 32 -> Gen.gen_deg2_u32 p u0 u1 = Some (GenEq.strict1 p (Fused.ladd 32 p u0 u1), GenEq.strict1 p (Fused.lsub 32 p u0 u1))) /\
+  (0 <= 2 * p < 2 ^ 64 -> Gen.gen_deg2_u64 p u0 u1 = Some (GenEq.strict1 p (Fused.ladd 64 p u0 u1), GenEq.strict1 p (Fused.lsub 64 p u0 u1))).
+Proof. intros p u0 u1. exact (conj (GenEq.gen_deg2_16 p u0 u1) (conj (GenEq.gen_deg2_32 p u0 u1) (GenEq.gen_deg2_64 p u0 u1))). Qed.
+Print Assumptions C02_source_degree2.
